@@ -12,6 +12,7 @@
 #include "orange/OrangeTrackView.hh"
 #include "celeritas/Quantities.hh"
 #include "celeritas/Constants.hh"
+#include "celeritas/em/process/EPlusAnnihilationProcess.hh"
 #include "celeritas/field/UniformFieldData.hh"
 #include "celeritas/geo/GeoMaterialParams.hh"
 #include "celeritas/geo/GeoParams.hh"
@@ -327,6 +328,13 @@ Problem build_problem(json const& pj, json const& cj, unsigned max_streams)
     };
     for (auto const& pr : pj.at("procs"))
     {
+        if (pr.value("real", std::string{}) == "eplus_annihilation")
+        {
+            // the real process: on-the-fly cross section, real EPlusGGModel
+            phinp.processes.push_back(std::make_shared<EPlusAnnihilationProcess>(
+                particles, EPlusAnnihilationProcess::Options{}));
+            continue;
+        }
         StubProcessInput si;
         si.label = pr.at("label");
         si.particle = find_particle(pr.at("particle"));
@@ -340,6 +348,13 @@ Problem build_problem(json const& pj, json const& cj, unsigned max_streams)
             si.eloss = pr["eloss"].get<std::vector<std::vector<double>>>();
             for (auto const& row : si.eloss)
                 si.range.push_back(integrate_range(si.emin, si.emax, row));
+        }
+        si.real = pr.value("real", std::string{});
+        si.particles = particles;
+        if (!si.real.empty())
+        {
+            phinp.processes.push_back(std::make_shared<StubProcess>(std::move(si)));
+            continue;
         }
         json const& in = pr.at("inter");
         si.inter.self = si.particle;
